@@ -25,8 +25,14 @@
        emits one vector per MODE particle; the harness checks that the real cards give every MODE particle exactly
        one vector (a combined card gives the same vector to each of its particles);
      * U's minus sign (not_truncated), VOL's NO keyword, matrix fills (a cell with a transform on FILL is the
-       only "complex" fill), values' numeric formatting (values are opaque integers: thousandths for IMP/VOL).
+       only "complex" fill), Importance.all / Cells.set_equal_importance, values' numeric formatting (values are
+       opaque integers);
+     * that Importance._format_tree edits the classifiers in place for good: [write] returns the output only
+       (every correspondence case writes once).
    Values are never computed with, only moved and compared for equality (math.isclose becomes equality).
+   Describes /repo at 77a14cf: with _unshare_tree (11534b6), LAT's _update_cell_values (929de16), new importance
+   trees labelled with their own particle (0e28d06), universe None -> jump (e7a2fbb), deleters that clear the value
+   (277027d), no importance for particles outside MODE on cell cards (cba7f60).
    No proofs in this file. *)
 From Coq Require Import List String Ascii ZArith Bool Lia.
 From MPV Require Import Model.Wire.
@@ -393,6 +399,7 @@ Inductive op :=
 | OReorder (ns : list Z)                    (* problem.cells = [problem.cells[n] for n in ns] *)
 | OSetImp (t : target) (q : particle) (v : Z)
 | ODelImp (t : target) (q : particle)
+| OSetAll (t : target) (v : Z)              (* cell.importance.all = v *)
 | OSetVol (t : target) (v : Z)
 | ODelVol (t : target)
 | OSetU (t : target) (u : Z)
@@ -434,6 +441,14 @@ Definition set_num (c : cell) n := mkC n (c_imp c) (c_imp_set c) (c_vol c) (c_vo
 Definition e_set_imp (q : particle) (v : Z) : edit := fun linked mode c =>
   if andb linked (negb (mem q mode)) then Err EPartNotInProblem       (* _check_particle_in_problem *)
   else Ok (set_imp c (iset linked mode q v (c_imp c))).
+(* Importance.all / _set_all: every MODE particle, in MODE's order; a particle without a tree gets one, a particle
+   with a tree has the tree's value set (no _unshare_tree here: the particles that share the tree follow);
+   nothing happens on a cell that has no _problem *)
+Definition iset_all (mode : list particle) (v : Z) (g : list igroup) : list igroup :=
+  fold_left (fun g q => if mem q (ikeys g) then iupd q (fun t => mkT v (t_parts t) (t_order t)) g
+                        else g ++ [([q], mkT v [q] [q])]) mode g.
+Definition e_set_all (v : Z) : edit := fun linked mode c =>
+  if linked then Ok (set_imp c (iset_all mode v (c_imp c))) else Ok c.
 Definition e_del_imp (q : particle) : edit := fun _ _ c =>
   if mem q (ikeys (c_imp c)) then Ok (set_imp c (idel q (c_imp c))) else Err EKey.
 Definition e_set_vol (v : Z) : edit := fun _ _ c => Ok (set_vol c (VSet v)).
@@ -511,6 +526,7 @@ Definition step_op (s : state) (o : op) : res state :=
       end
   | OSetImp t q v => apply_edit s t (e_set_imp q v)
   | ODelImp t q => apply_edit s t (e_del_imp q)
+  | OSetAll t v => apply_edit s t (e_set_all v)
   | OSetVol t v => apply_edit s t (e_set_vol v)
   | ODelVol t => apply_edit s t e_del_vol
   | OSetU t u => apply_edit s t (e_set_u u)
@@ -855,6 +871,8 @@ Definition parse_op (s : string) : option op :=
           | Some t, Some q, Some v => Some (OSetImp t q v) | _, _, _ => None end
       | "X"%char, [t; q] =>
           match parse_target t, parse_nat q with Some t, Some q => Some (ODelImp t q) | _, _ => None end
+      | "S"%char, [t; v] =>
+          match parse_target t, parse_Z v with Some t, Some v => Some (OSetAll t v) | _, _ => None end
       | "V"%char, [t; v] =>
           match parse_target t, parse_Z v with Some t, Some v => Some (OSetVol t v) | _, _ => None end
       | "W"%char, [t] => option_map ODelVol (parse_target t)
